@@ -244,6 +244,8 @@ func (p c05) hostileSession(c *fw.Ctx, uniq *int) []string {
 			// the name updated more than once inside one expression: every operand is the value at the time it was evaluated
 			"print((++V) + (++V))", "print(++V == ++V)", "print(++V * --V)", "print((--V) - (--V), V)", "print([++V, ++V, V])", "print((V++) + (V++), V)", "print(V + (++V), (++V) + V)", "print((++V) * 10 + (V++))",
 			"x = ++V; --V; print(x, V)", "print(++V < ++V, --V <= V)", "print({\"a\": ++V, \"b\": ++V})", "print(max(++V, ++V), min(--V, V))", "print((V = V + 1) + (V = V + 1))", "print(-(++V), !(++V == V))",
+			// a named function defined inside the body under the very name of the parameter or loop variable
+			"func V() {7}; print(V)", "func V(x) {x * 2}; print(V(3))", "func V() {7}", "if true {func V(a) {a}}; print(V)",
 			// named functions defined inside the body that read the name, or have a parameter of that name
 			"func nf() {V + 1}; print(nf())", "func nf2(V) {V * 2}; print(nf2(3), V)", "func nf3(a) {a + V}; print(nf3(1), nf3(2))", "func nf4(a, V) {[a, V]}; print(nf4(V, 7))", "func nf5() {func nf6() {V}; nf6()}; print(nf5())",
 			"print({V: print(\"a\"), V: print(\"b\")})", "print({V: 1, V: 2, 9: V})", "print([{V: V, V: print(\"c\")}])"}
